@@ -37,4 +37,6 @@ class Ref(Expression):
         out += (STATUS, RESULT, POS) << Yield((CALL, func, POS))
 
     def argumentize(self, out, flags):
+        if flags.uses_context and not self.is_local and not self.is_super:
+            return Code(f'_ctx.{self.resolved}')
         return Code(self.resolved)
